@@ -40,13 +40,25 @@ func isMsgRequestPred(c *chk.Ctx, g *ssa.Function) bool {
 				}
 			}
 			if call, ok := ins.(*ssa.Call); ok {
-				if k := call.Call.StaticCallee(); k != nil && ir.RecvNamed(k) == c.M.Jmessage && k.Signature.Results().Len() == 1 && k.Signature.Results().At(0).Type().String() == "bool" {
+				if k := call.Call.StaticCallee(); k != nil && ir.RecvNamed(k) == c.M.Jmessage && k.Signature.Results().Len() == 1 && (k.Signature.Results().At(0).Type().String() == "bool" || !ir.Exported(k)) {
 					visit(k, depth+1)
 				}
 			}
 		})
 	}
 	visit(g, 0)
+	if m && e && r && id {
+		// (a shared classifier may look at the id for its other verdicts: what counts is that
+		// this predicate's own verdict is decided by the three members alone)
+		atomOf := msgFieldAtom(c)
+		decided := true
+		for bits := 0; bits < 8; bits++ {
+			if _, ok := c.P.EvalBool(g, atomOf, map[string]bool{"M": bits&1 != 0, "E": bits&2 != 0, "R": bits&4 != 0}); !ok {
+				decided = false
+			}
+		}
+		return decided
+	}
 	return m && e && r && !id
 }
 
@@ -202,10 +214,15 @@ func rulePushGate(c *chk.Ctx) {
 		// the other edge returns a non-nil package-level error without transmitting
 		okRet := false
 		for _, r := range ir.Returns(f) {
-			for _, cd := range ir.CondsAt(r.Block()) {
-				if is, truth := condOnBoolField(cd, c.M.SAllowP, loadsAllow); is && !truth {
-					if g := globalLoad(ir.ReturnResult(r, len(r.Results)-1)); g != nil {
-						okRet = true
+			if len(r.Results) == 0 {
+				continue
+			}
+			for _, w := range returnedWays(r, len(r.Results)-1) {
+				for _, cd := range w.conds {
+					if is, truth := condOnBoolField(cd, c.M.SAllowP, loadsAllow); is && !truth {
+						if g := globalLoad(w.val); g != nil {
+							okRet = true
+						}
 					}
 				}
 			}
@@ -221,10 +238,12 @@ func rulePushGate(c *chk.Ctx) {
 						if len(r.Results) == 0 {
 							continue
 						}
-						for _, cd := range ir.CondsAt(r.Block()) {
-							if x, eq, ok := ir.NilCompare(cd.V); ok && chk.LoadsField(x, c.M.SCh) && eq == cd.Truth {
-								if gl := globalLoad(ir.ReturnResult(r, len(r.Results)-1)); gl != nil {
-									okClosed = true
+						for _, w := range returnedWays(r, len(r.Results)-1) {
+							for _, cd := range w.conds {
+								if x, eq, ok := ir.NilCompare(cd.V); ok && chk.LoadsField(x, c.M.SCh) && eq == cd.Truth {
+									if gl := globalLoad(w.val); gl != nil {
+										okClosed = true
+									}
 								}
 							}
 						}
@@ -246,10 +265,12 @@ func rulePushGate(c *chk.Ctx) {
 					if len(r.Results) == 0 {
 						continue
 					}
-					for _, cd := range ir.CondsAt(r.Block()) {
-						if x, eq, ok := ir.NilCompare(cd.V); ok && chk.LoadsField(x, c.M.SCh) && eq == cd.Truth {
-							if gl := globalLoad(ir.ReturnResult(r, len(r.Results)-1)); gl != nil {
-								okClosed = true
+					for _, w := range returnedWays(r, len(r.Results)-1) {
+						for _, cd := range w.conds {
+							if x, eq, ok := ir.NilCompare(cd.V); ok && chk.LoadsField(x, c.M.SCh) && eq == cd.Truth {
+								if gl := globalLoad(w.val); gl != nil {
+									okClosed = true
+								}
 							}
 						}
 					}
